@@ -6,12 +6,14 @@
 From Typ Require Export Lib.Base Slices.SortSearch Slices.Sorted.
 
 (* how the object is built: NewSortedOrdered, or NewSorted with one of the
-   harness's less functions (a<b, b<a, a>>2 < b>>2 : key-only, with ties) *)
-Inductive order := OOrdered | ONat | ORev | OKey.
+   harness's less functions (a<b, b<a, a>>2 < b>>2 : key-only, with ties), or
+   not at all (OZero: the zero value [var s Sorted[int]], less == nil; outside
+   the property, run only to tie the model's "not initialized" branch to the code) *)
+Inductive order := OOrdered | ONat | ORev | OKey | OZero.
 
 Definition less_of (o : order) : Z -> Z -> bool :=
   match o with
-  | OOrdered | ONat => Z.ltb
+  | OOrdered | ONat | OZero => Z.ltb
   | ORev => fun a b => Z.ltb b a
   | OKey => fun a b => Z.ltb (a / 4) (b / 4)
   end.
@@ -28,6 +30,7 @@ Record case := Case {
 Definition new_case (c : case) : result (sorted Z) :=
   match c_order c with
   | OOrdered => NewSortedOrdered 0%Z insertion_sort Z.ltb (c_init c)
+  | OZero => Ok (MkSorted [] None)
   | o => NewSorted 0%Z insertion_sort (c_init c) (less_of o)
   end.
 
@@ -38,7 +41,9 @@ Definition ret_eqb (a b : ret Z) : bool :=
   | RVal x, RVal y => Z.eqb x y
   | RUnit, RUnit => true
   | RList x, RList y => list_eqb Z.eqb x y
-  | RPanic x, RPanic y => panic_kind_eqb x y
+  (* the property says "panics", not with what: the value a call panics with
+     (kind, message) is not compared, only that both sides panic *)
+  | RPanic _, RPanic _ => true
   | _, _ => false
   end.
 
